@@ -1,4 +1,5 @@
 import Indi.Properties.C10
+import Indi.Properties.C10b
 #print axioms Indi.Num.exact_accurate
 #print axioms Indi.Num.C10_render_valid
 #print axioms Indi.Num.C10_sexa_denotes
@@ -7,3 +8,5 @@ import Indi.Properties.C10
 #print axioms Indi.Num.C10_parse_denotes
 #print axioms Indi.Num.C10_sexa_roundtrip
 #print axioms Indi.Num.sexa_table_pinned
+#print axioms Indi.Num.exactIEEE_accurate
+#print axioms Indi.Num.C10_sexa_roundtrip_ieee
